@@ -26,6 +26,9 @@ type GenOpts struct {
 	// KnownEnumsOnly keeps enum fields to the numbers the schema names (by default proto3 enums now and then get a
 	// number without a name, which open enums allow).
 	KnownEnumsOnly bool
+	// OddTimes lets timestamps carry nanos outside [0, 1s) now and then: the same instant written in a non-canonical
+	// form, which messages filled in by hand or by field arithmetic have and which stores keep verbatim.
+	OddTimes bool
 	// Skip names fields (by full name) that must be left unset.
 	Skip map[protoreflect.FullName]bool
 	// Only, when non-nil, limits top level population to these field names.
@@ -58,7 +61,11 @@ func fillMessage(t *rapid.T, label string, m protoreflect.Message, o GenOpts, de
 	switch md.FullName() {
 	case "google.protobuf.Timestamp":
 		m.Set(md.Fields().ByName("seconds"), protoreflect.ValueOfInt64(rapid.Int64Range(0, 4000000000).Draw(t, label+".ts.s")))
-		m.Set(md.Fields().ByName("nanos"), protoreflect.ValueOfInt32(rapid.SampledFrom([]int32{0, 0, 1, 500000000, 999999999}).Draw(t, label+".ts.n")))
+		nanos := []int32{0, 0, 1, 500000000, 999999999}
+		if o.OddTimes {
+			nanos = []int32{0, 1, 500000000, 999999999, 1500000000, -250000000, 1000000000, -1}
+		}
+		m.Set(md.Fields().ByName("nanos"), protoreflect.ValueOfInt32(rapid.SampledFrom(nanos).Draw(t, label+".ts.n")))
 		return
 	case "google.protobuf.Duration":
 		s := rapid.Int64Range(-100000, 100000).Draw(t, label+".d.s")
